@@ -334,6 +334,11 @@ func (vfs *MemFS) Link(oldname, newname string) error {
 		return &os.LinkError{Op: op, Old: oldname, New: newname, Err: nerr}
 	}
 
+	if !pi.IsLast() {
+		// a directory of newname is missing, not only its last element.
+		return &os.LinkError{Op: op, Old: oldname, New: newname, Err: nerr}
+	}
+
 	nParent.mu.Lock()
 	defer nParent.mu.Unlock()
 
@@ -763,7 +768,7 @@ func (vfs *MemFS) Rename(oldpath, newpath string) error {
 	}
 
 	nParent, nChild, nPI, nErr := vfs.searchNode(newpath, slmLstat)
-	if nErr != vfs.err.FileExists && !vfs.isNotExist(nErr) {
+	if nErr != vfs.err.FileExists && !vfs.isNotExist(nErr) || vfs.isNotExist(nErr) && !nPI.IsLast() {
 		return &os.LinkError{Op: op, Old: oldpath, New: newpath, Err: nErr}
 	}
 
@@ -900,7 +905,7 @@ func (vfs *MemFS) Symlink(oldname, newname string) error {
 	const op = "symlink"
 
 	parent, _, pi, nerr := vfs.searchNode(newname, slmLstat)
-	if !vfs.isNotExist(nerr) {
+	if !vfs.isNotExist(nerr) || !pi.IsLast() {
 		return &os.LinkError{Op: op, Old: oldname, New: newname, Err: nerr}
 	}
 
